@@ -9,7 +9,28 @@ static EPOCH: OnceLock<Instant> = OnceLock::new();
 /// Monotonic milliseconds since first call. Safe to use for deadline arithmetic.
 #[must_use]
 pub fn now_ms() -> u64 {
+    #[cfg(deventlab_d_engine_verif)]
+    if let Some(v) = verif_clock::get() {
+        return v;
+    }
     EPOCH.get_or_init(Instant::now).elapsed().as_millis() as u64
+}
+
+/// Harness-controlled lease clock. Compiled only with `--cfg deventlab_d_engine_verif`.
+#[cfg(deventlab_d_engine_verif)]
+pub mod verif_clock {
+    use std::sync::atomic::{AtomicU64, Ordering};
+    // u64::MAX = no override (real monotonic clock)
+    static OVERRIDE_MS: AtomicU64 = AtomicU64::new(u64::MAX);
+    pub fn set(ms: Option<u64>) {
+        OVERRIDE_MS.store(ms.unwrap_or(u64::MAX), Ordering::SeqCst);
+    }
+    pub fn get() -> Option<u64> {
+        match OVERRIDE_MS.load(Ordering::SeqCst) {
+            u64::MAX => None,
+            v => Some(v),
+        }
+    }
 }
 
 /// Initializes the monotonic clock epoch. Call once at engine startup to avoid
